@@ -593,6 +593,8 @@ def _run(prop, tier, a, mod, out, workdir, t_start):
             "vm_crosscheck": stats.get("vm_crosscheck"),
             "repo_statement_coverage_sampled": stats.get("code_coverage_first_shard"),
             "known_findings_hit": out.known,
+            "second_pass_differs": stats.get("second_pass_differs", 0),
+            "constants_regenerated_from_source": _constants_status(),
             "impl_s": stats["impl_s"], "model_s": stats["model_s"], "build_s": round(b_s, 1),
         },
         "assumptions": getattr(mod, "ASSUMPTIONS", []),
@@ -609,11 +611,18 @@ def _run(prop, tier, a, mod, out, workdir, t_start):
     return 1 if lines else 0
 
 
+def _constants_status():
+    try:
+        return json.load(open(os.path.join(COQDIR, "theories", "Gen", "constants_status.json")))
+    except Exception:  # noqa: BLE001
+        return None
+
+
 TRUSTED_COMMON = [
     "Coq 8.16.1 kernel (coqc; coqchk -o in the thorough tier); vm_compute used in reflexivity proofs over generated constants and for the cross-check sample; native_compute not used",
     "no axioms: every theorem in Properties/ must print 'Closed under the global context'",
     "extraction: Require Extraction + ExtrOcamlBasic only (bool, option, unit, list, prod, sumbool); N/Z/positive stay Coq's; no Extract Constant / Extract Inductive of our own; OCaml 4.13.1 ocamlfind ocamlopt; driver ocaml/driver.ml parses/prints integers and parentheses only",
     "extraction cross-checked on a seeded sample of every run by re-evaluating Dispatch.run_case with vm_compute inside coqc",
     "harness (Python): generators, encoder harness/enc.py (Python object -> sx; CPython's Unicode predicates enter as per-character flags), implementation runner, differ",
-    "the model is hand-written (coq/theories/Model) and tied to /repo by the differential correspondence on every run; Gen/Constants.v is regenerated from the running modules",
+    "the model is hand-written (coq/theories/Model) and tied to /repo by the differential correspondence on every run; Gen/Constants.v is regenerated from the running modules (a constant that cannot be read from the source any more falls back to its pinned value and is listed in constants_regenerated_from_source)",
 ]
